@@ -40,6 +40,8 @@ type c15El struct {
 	Nr      int            `json:"nr"`
 	Nc      int            `json:"nc"`
 	Hdr     bool           `json:"hdr"`
+	Hm      string         `json:"hm"`    // header marking of the source: none first lead2 lead3 mid all
+	Hrows   []int          `json:"hrows"` // the (1-based) rows the source marks as header rows
 	Merged  bool           `json:"merged"`
 	Src     [][]c15SrcCell `json:"src"`
 	Special bool           `json:"special"`
@@ -64,15 +66,15 @@ type c15Exp struct {
 }
 
 type c15Case struct {
-	Writer string  `json:"writer"` // which writer this run drives ("ref": reader validation only)
-	Kind string   `json:"kind"`
-	Off  int      `json:"off"`
-	Mx   int      `json:"mx"`
-	Meta bool     `json:"meta"`
-	Toc  bool     `json:"toc"`
-	Els  []c15El  `json:"els"`
-	Exp  []c15Exp `json:"exp"`
-	Ref  []string `json:"ref"`
+	Writer string   `json:"writer"` // which writer this run drives ("ref": reader validation only)
+	Kind   string   `json:"kind"`
+	Off    int      `json:"off"`
+	Mx     int      `json:"mx"`
+	Meta   bool     `json:"meta"`
+	Toc    bool     `json:"toc"`
+	Els    []c15El  `json:"els"`
+	Exp    []c15Exp `json:"exp"`
+	Ref    []string `json:"ref"`
 }
 
 // ------------------------------------------------------------- comparison
